@@ -5,9 +5,9 @@ TABLE = {
  # id: (patch file, caught?, signature class reported, note on what it took)
  "C01": ("patch_ported.diff", True, "C01:validated_replay_seq:quiescence:SideEffect+SideEffect / Message+SideEffect", "caught as built on the tree it was written against. Later repo fixes moved the code; the patch was re-applied by hand to append_tool_side_effects (git apply with an offset had silently edited the neighbouring function). On the final tree the ported change was at first MISSED: the only scheduling point between releasing the seq lock and taking the log writer lock is a lock hook, and C01's filter treated lock hooks as pass-through when the lock is free. Lock acquisitions are now scheduling points in C01 (cont.next_seq, log.writer); caught again"),
  "C02": ("patch_ported.diff", True, "C02:read_only_call_wrote:replay_events", "patch ported to the current replay_events_locked; caught only after hostile thread ids ('../events') were added to the read-only call set - the idea came from this change"),
- "C03": ("patch.diff", True, "C03:store_replay_vs_log", "caught as built (history with drop_caches followed by an append)"),
+ "C03": ("patch.diff", True, "C04:wrong_answer:replay_events:.jsonl:drop_first_line:tail=run_ended:after_fault", "caught as built by C03 on the tree it was written against (history with drop_caches followed by an append: the append re-created a partial sidecar, which the weakened validation accepted). Fix 833d7be (an append never re-creates a lost cache member) removed the only way a history can produce a sidecar that does not start at seq 0, so under this change C03 now HOLDS (neutralised for C03). A sidecar without its first line can still come from outside: the fault 'without its first line' was added to C04, which reports the change"),
  "C04": ("patch.diff", True, "C04:wrong_answer:compiled_context:.mr.v1.jsonl:garbage_same_length", "missed at first: needed a thread of >=16 messages whose last frame is not a message (so that the open-time reconciliation does not heal the garbage cache); the 18-message thread + suffixes were added to the quick tier after that, and the known-finding signatures were narrowed to the observed fault classes so they could not mask it"),
- "C05": ("patch.diff", True, "C05:recovered_cache_not_transparent:compiled_context:before[write <id>.mr.v1.jsonl]", "second C05 change (the first one was neutralised by the repo fixes, see C05_neutralised); missed at first: the recovered-store differential did not include the compiled context; added, then caught"),
+ "C05": ("patch.diff", True, "C04:wrong_answer:compiled_context:.mr.v1.jsonl:truncate_to_0:tail=run_ended:after_fault", "LATER: fix 12eecb2 (a marker brackets every cache-family update) made every crash point recover correctly under this change, so C05 now HOLDS under it (neutralised for C05); its cache-fault side is a C04 violation and C04 reports it (same patch as C04-2a / C05-2b). ORIGINALLY: second C05 change (the first one was neutralised by the repo fixes, see C05_neutralised); missed at first: the recovered-store differential did not include the compiled context; added, then caught"),
  "C06": ("patch.diff", True, "C06:lost_frame:Thread", "caught as built"),
  "C07": ("patch.diff", True, "C07:run_ended_count:compile_failure", "caught by the compile-failure case that replaces .rip/artifacts by a file (that way of forcing a compile failure came from this change's report; the unreadable-summary way of the design did not reach the branch)"),
  "C08": ("patch.diff", True, "C08:reference:message_count", "missed by the depth-bounded histories; caught after the 40 x 20 KiB thread (messages+runs sidecar larger than the first tail windows) was added, prompted by this change"),
@@ -50,6 +50,8 @@ def main():
               "what_i_ran":[f"tools/confirm_seed.sh {pid} ... (scratch worktree /tmp/wt/confirm: demo without the change passes, with it fails, pinned suite passes)",
                             f"tools/try_seed.sh /verif/seeded/{pid}/patch.diff {pid} quick (git apply in /repo, ./vcheck {pid} --tier quick, git checkout)"],
               "detected":caught,
+              "detected_by": {"C03":"C04","C05":"C04"}.get(pid, pid),
+              "status": {"C03":"other_property","C05":"other_property"}.get(pid, "caught_as_built" if note.startswith("caught as built") and "MISSED" not in note else "caught_after_strengthening"),
               "detected_as":sig,
               "note":note}
         json.dump(meta,open(f"{dst}/meta.json","w"),indent=1)
